@@ -92,6 +92,8 @@ def fold_kernel(call_fn, schema):
         "numdict": OrderedDict(schema.num), "dendict": OrderedDict(schema.den),
         "numerator": schema.coeff_list(schema.num), "denominator": schema.coeff_list(schema.den),
         "numlist": schema.coeff_list(schema.num), "denlist": schema.coeff_list(schema.den),
+        # the polynomials, read by delay (self.denpoly[0] is the a[0] of the schema)
+        "numpoly": OrderedDict(schema.num), "denpoly": OrderedDict(schema.den),
     })
 
     def isinst(value, what):
